@@ -13,7 +13,7 @@ import (
 )
 
 func init() {
-	register("C20", "Error well-formedness: (R1) every call of a rule's addError passes, on every path, a Message option whose text is provably non-empty and an At option whose argument is a parser-assigned position (must-set analysis of the variadic option slice through appends and phis); (R2) every error constructor call (Errorf/ErrorPathf/ErrorPosf/ErrorLocf, fmt.Errorf, errors.New) has a provably non-empty message, every gqlerror.Error literal outside the constructors sets Message or is completed by options, and ErrorPosf reaches ErrorLocf on every path; (R3) the struct tags of gqlerror.Error and Location give the response shape and no custom marshaller overrides it; (R4) ast.Path elements have string/int underlying types, any custom marshaller does not quote names with Go syntax, UnmarshalJSON maps string->PathName and float64->PathIndex, String handles every implementer; (R5) the file, line and column of every ErrorLocf call come from one position (or the lexer's own state), and every AST node the loader synthesises carries a Position. (R6) every location is positive: at every lexer call that builds an error line >= 1 and endRunes - lineStartRunes >= 0, and at every return of a finished token Pos.Line >= 1 and Pos.Column >= 1 (abstract interpretation of the lexer; tokens are where every other location is copied from). (R7) gqlerror.Wrap / WrapPath are applied to plain errors only.", runC20)
+	register("C20", "Error well-formedness: (R1) every call of a rule's addError passes, on every path, a Message option whose text is provably non-empty and an At option whose argument is a parser-assigned position (must-set analysis of the variadic option slice through appends and phis); (R2) every error constructor call (Errorf/ErrorPathf/ErrorPosf/ErrorLocf, fmt.Errorf, errors.New) has a provably non-empty message, every gqlerror.Error literal outside the constructors sets Message or is completed by options, and ErrorPosf reaches ErrorLocf on every path; (R3) the struct tags of gqlerror.Error and Location give the response shape and no custom marshaller overrides it; (R4) ast.Path elements have string/int underlying types, any custom marshaller does not quote names with Go syntax, UnmarshalJSON maps string->PathName and float64->PathIndex, String handles every implementer; (R5) the file, line and column of every ErrorLocf call come from one position (or the lexer's own state), and every AST node the loader synthesises carries a Position. (R6) every location is positive: at every lexer call that builds an error line >= 1 and endRunes - lineStartRunes >= 0, and at every return of a finished token Pos.Line >= 1 and Pos.Column >= 1 (abstract interpretation of the lexer; tokens are where every other location is copied from). (R7) gqlerror.Wrap / WrapPath are applied to plain errors only. (R2 also) Validate applies exactly the options the rule passed.", runC20)
 }
 
 // mustElems returns the values that are certainly elements of slice v at this point
